@@ -53,7 +53,7 @@ def gen_lines(ck, quick):
 
     bnd = {k: au.boundary(k, rng, 2) for k in au.IK}
     others = [("bool", True), ("bool", False), ("string", ""), ("string", "ab"), ("string", "7")]
-    reps = 1 if quick else 5
+    reps = 1 if quick else 3
     # every case is emitted for strict and relaxed (and dynamic for the correspondence) with identical operands
     for k in au.IK:
         for kv in au.IK:
@@ -517,9 +517,9 @@ def run(ck):
             ck.violation("ego-build", "ego does not build:\n" + ego[-1500:], replay={"log": ego[-3000:]}, found_input=False)
         else:
             if replay is None:
-                nrand = 24 if quick else 400
+                nrand = 24 if quick else 100
                 progs = [gen_program(ck.rng) for _ in range(nrand)]
-                progs += [gen_mixed_program(ck.rng) for _ in range(4 if quick else 40)]
+                progs += [gen_mixed_program(ck.rng) for _ in range(4 if quick else 20)]
                 progs += [gen_alias_program(ck.rng, w) for w in list(range(len(ELEMS))) + ["map", "struct"]]
             else:
                 progs = [replay["program"]]
@@ -557,7 +557,7 @@ def run(ck):
             clean = len({j[0] for j in cleanjobs})
             # programs inside the fragment of the program model: real stdout vs `run` of coq/Arith/Prog.v, both modes, -o 0
             if replay is None and not getattr(ck, "coq_broken", None):
-                mprogs = [gen_model_program(ck.rng) for _ in range(12 if quick else 120)]
+                mprogs = [gen_model_program(ck.rng) for _ in range(12 if quick else 60)]
                 mpaths = []
                 for pi, (text, _, _) in enumerate(mprogs):
                     p = os.path.join(ck.work, "m%d.ego" % pi)
